@@ -814,6 +814,18 @@ func genC10(g *G) {
 			}
 		}
 	}
+	// ONE session made of several processes, each on its own store: every process is stopped exactly once
+	g.Emit("multi", "fkeygen+eresharing", "silent")
+	g.Emit("multi", "fresharing+fkeygen+eresharing", "refused")
+	g.Emit("multi", "esigning+fsigning+esigning", "gto")
+	for i := 0; i < g.Count(6, 60); i++ {
+		n := 2 + g.Intn(3)
+		ks := []string{}
+		for j := 0; j < n; j++ {
+			ks = append(ks, g.Pick(c10kinds))
+		}
+		g.Emit("multi", strings.Join(ks, "+"), g.Pick([]string{"refused", "silent", "gto", "cancel", "precancel"}))
+	}
 	// constructor-only cells: every kind x every way the share can be unusable, and the bad tweaks of FROST signing
 	for _, k := range c10kinds {
 		for _, v := range []string{"noshare", "badshare", "emptyshare"} {
@@ -852,4 +864,6 @@ func genC10(g *G) {
 	if g.Thorough() {
 		g.Emit("cell", "ekeygen", "failed")
 	}
+	// LAST (the session it starts is never ended: see the op): the lock while an ECDSA keygen is in its rounds
+	g.Emit("midrun", "ekeygen")
 }
